@@ -413,12 +413,10 @@ func classifyD(c CaseD) core.Class {
 		}
 	}
 	cl.Labels = append(cl.Labels, padLabels(c.Pad, len(c.Src))...)
-	defer func() {
-		if c.Pad != nil {
-			cl.Fingerprint = "padded" + padFingerprint(c.Pad)
-		}
-	}()
 	cl.Fingerprint = fmt.Sprintf("%s|%s|across=%v|two=%v|bs+marker=%v", best, order, set["shared-source-fragment:across-files:quoted+heredoc"], set["two-files"], set["fragment:backslash-and-marker"])
+	if c.Pad != nil {
+		cl.Fingerprint = "padded" + padFingerprint(c.Pad)
+	}
 	return cl
 }
 
